@@ -11,6 +11,7 @@ import (
 	"fmt"
 	"net/url"
 	"strings"
+	"unicode/utf8"
 
 	"github.com/apparentlymart/go-versions/versions"
 	"github.com/hashicorp/go-slug/sourceaddrs"
@@ -70,8 +71,14 @@ func safeParse(api, s string) (v interface{}, err error, pn interface{}) {
 	return
 }
 
-func describe(in, api string, v interface{}, err error, pn interface{}) addrObs {
-	o := addrObs{In: in, Api: api}
+func describe(in, api string, v interface{}, err error, pn interface{}) (o addrObs) {
+	o = addrObs{In: in, Api: api}
+	defer func() {
+		// printing an accepted value must not panic either
+		if p := recover(); p != nil {
+			o = addrObs{In: in, Api: api, Panic: "printing the parsed value: " + fmt.Sprint(p)}
+		}
+	}()
 	if pn != nil {
 		o.Panic = fmt.Sprint(pn)
 		return o
@@ -436,7 +443,12 @@ func runAddr(o *Opts) {
 		ob := describe(in, api, v, err, pn)
 		c := Case{Desc: ob, Kind: "parse/" + api, Key: api + "|" + in, Nontrivial: ob.Ok}
 		if ob.Panic != "" {
-			c.Viol = append(c.Viol, viol("C19", fmt.Sprintf("%s(%q) panics: %s", api, in, ob.Panic)))
+			// C19 quantifies over valid UTF-8 strings; other byte strings are exercised but not judged
+			if utf8.ValidString(in) {
+				c.Viol = append(c.Viol, viol("C19", fmt.Sprintf("%s(%q) panics: %s", api, in, ob.Panic)))
+			} else {
+				c.Kind = "parse/invalid-utf8-panic"
+			}
 			sink.Add(c)
 			return
 		}
